@@ -129,6 +129,14 @@ func (s *sched) quiesce() {
 // run executes the task functions under the control of draws from rt. It
 // returns the order in which yield points were released.
 func (s *sched) run(rt *rapid.T, names []string, fns []func()) []string {
+	return s.runWith(func(parked []*parkedTask) int {
+		return rapid.IntRange(0, len(parked)-1).Draw(rt, "sched")
+	}, names, fns)
+}
+
+// runWith is run with an explicit picking policy (index into the parked
+// tasks, sorted by task number); used by fixed regression schedules.
+func (s *sched) runWith(pickFn func(parked []*parkedTask) int, names []string, fns []func()) []string {
 	s.self = goid()
 	s.bubble = myBubble()
 	s.names = names
@@ -189,7 +197,13 @@ func (s *sched) run(rt *rapid.T, names []string, fns []func()) []string {
 		sort.Ints(ids)
 		pick := ids[0]
 		if len(ids) > 1 {
-			pick = ids[rapid.IntRange(0, len(ids)-1).Draw(rt, "sched")]
+			s.mu.Lock()
+			var ps []*parkedTask
+			for _, id := range ids {
+				ps = append(ps, s.parked[id])
+			}
+			s.mu.Unlock()
+			pick = ids[pickFn(ps)]
 		}
 		s.mu.Lock()
 		p := s.parked[pick]
